@@ -22,7 +22,7 @@ def configs():
             "compression": st.sampled_from([None, 0, 1, 4, 9]) | st.integers(0, 9),
             "path_kind": st.sampled_from(["str", "Path"]),
             "mode": st.sampled_from(["w", "o"]),
-            "pre": st.sampled_from(["fresh", "fresh", "existing_zip", "existing_dir"]),
+            "pre": st.sampled_from(["fresh", "fresh", "existing_zip", "existing_dir", "existing_store", "existing_store"]),
         }
     ).map(_fix_cfg)
 
@@ -155,6 +155,19 @@ def _target(d, cfg, tag):
     return p, zipped
 
 
+def _decoy(root):
+    attrs = []
+    for name, v in root["attrs"]:
+        if v.get("t") == "nd" and "content" not in v:
+            attrs.append([name, dict(v, seed=v["seed"] + 1)])  # same dtype/shape, other contents
+        elif v.get("t") in ("list", "tuple", "dict", "obj"):
+            attrs.append([name, {"t": "nd", "dtype": "float64", "shape": [2], "seed": 3, "layout": "C"}])
+        else:
+            attrs.append([name, {"t": "int", "v": 41}])
+    attrs.append(["stale_extra", {"t": "str", "v": "old"}])
+    return {"t": "obj", "cls": "NodeB" if root.get("cls") != "NodeB" else "NodeA", "attrs": attrs}
+
+
 def save_load(ctx, case, obj, cfg, tag, what):
     """save obj under cfg into a fresh directory, load it back, remove the files."""
     from quantem.core.io.serialize import load
@@ -172,6 +185,12 @@ def save_load(ctx, case, obj, cfg, tag, what):
         store = {"zip": "zip", "dir": "dir", "auto_zip": "auto", "auto_dir": "auto"}[cfg["store"]]
         target = pathlib.Path(p) if cfg["path_kind"] == "Path" else p
         sink = io.StringIO()
+        if cfg["pre"] == "existing_store":
+            # history: a valid store of ANOTHER object (other class, same attribute names with other contents, one
+            # extra attribute) already sits at the target; mode="o" must replace it completely (seeded change C01-11)
+            with ctx.sut(case, "%s: earlier save of a decoy object at the same target" % what):
+                with contextlib.redirect_stdout(sink):
+                    gg.build(_decoy(case["root"])).save(p, mode="w", store=store)
         with ctx.sut(case, "%s: save(store=%s, compression=%r, mode=%s, pre=%s)" % (what, store, cfg["compression"], cfg["mode"], cfg["pre"])):
             with contextlib.redirect_stdout(sink):
                 obj.save(target, mode=cfg["mode"], store=store, compression_level=cfg["compression"])
